@@ -1,0 +1,151 @@
+//go:build verif
+
+package thrift_reflection
+
+// Contracts for descriptor construction and lookup (property C15). Comment-only file, read by /verif/engine (govc).
+
+// Global shape invariants of the parser's AST (what the parser builds): no nil links where the walkers dereference.
+//@ pure func wfCV1(x *parser.ConstValue) bool { return x.TypedValue != nil && (forall i int :: 0 <= i && i < len(x.TypedValue.List) ==> x.TypedValue.List[i] != nil) && (forall i int :: 0 <= i && i < len(x.TypedValue.Map) ==> x.TypedValue.Map[i] != nil && x.TypedValue.Map[i].Key != nil && x.TypedValue.Map[i].Value != nil) }
+//@ pure func wfCVs() bool { return forall x *parser.ConstValue :: x != nil ==> wfCV1(x) }
+//@ pure func wfAnn(a parser.Annotations) bool { return forall i int :: 0 <= i && i < len(a) ==> a[i] != nil }
+//@ pure func wfField(f *parser.Field) bool { return f != nil && wfAnn(f.Annotations) }
+//@ pure func wfFieldList(fs []*parser.Field) bool { return forall i int :: 0 <= i && i < len(fs) ==> wfField(fs[i]) }
+
+//@ func GetTypeDescriptor(path string, typeStruct *parser.Type) *TypeDescriptor
+//@   ensures typeStruct == nil ==> result == nil
+//@   ensures typeStruct != nil ==> result != nil && fresh(result) && result.Filepath == path && result.Name == typeStruct.Name
+//@   ensures typeStruct != nil ==> (result.KeyType == nil) == (typeStruct.KeyType == nil) && (result.ValueType == nil) == (typeStruct.ValueType == nil)
+//@   ensures typeStruct != nil && typeStruct.KeyType != nil ==> result.KeyType.Name == typeStruct.KeyType.Name && result.KeyType.Filepath == path
+//@   ensures typeStruct != nil && typeStruct.ValueType != nil ==> result.ValueType.Name == typeStruct.ValueType.Name && result.ValueType.Filepath == path
+
+//@ func getConstValueDescriptor(cv *parser.ConstValue) *ConstValueDescriptor
+//@   requires wfCVs()
+//@   ensures cv == nil ==> result == nil
+//@   ensures cv != nil ==> result != nil && fresh(result)
+//@   ensures cv != nil && cv.Type == parser.ConstType_ConstInt ==> result.Type == ConstValueType_INT && result.ValueInt == cv.TypedValue.GetInt()
+//@   ensures cv != nil && cv.Type == parser.ConstType_ConstDouble ==> result.Type == ConstValueType_DOUBLE && result.ValueDouble == cv.TypedValue.GetDouble()
+//@   ensures cv != nil && cv.Type == parser.ConstType_ConstLiteral ==> result.Type == ConstValueType_STRING && result.ValueString == cv.TypedValue.GetLiteral()
+//@   ensures cv != nil && cv.Type == parser.ConstType_ConstIdentifier && cv.TypedValue.GetIdentifier() == "true" ==> result.Type == ConstValueType_BOOL && result.ValueBool
+//@   ensures cv != nil && cv.Type == parser.ConstType_ConstIdentifier && cv.TypedValue.GetIdentifier() == "false" ==> result.Type == ConstValueType_BOOL && !result.ValueBool
+//@   ensures cv != nil && cv.Type == parser.ConstType_ConstIdentifier && cv.TypedValue.GetIdentifier() != "true" && cv.TypedValue.GetIdentifier() != "false" ==> result.Type == ConstValueType_IDENTIFIER && result.ValueIdentifier == cv.TypedValue.GetIdentifier()
+//@   ensures cv != nil && cv.Type == parser.ConstType_ConstList ==> result.Type == ConstValueType_LIST && len(result.ValueList) == len(cv.TypedValue.List) && forall k int :: 0 <= k && k < len(result.ValueList) ==> result.ValueList[k] != nil
+//@   ensures cv != nil && cv.Type == parser.ConstType_ConstMap ==> result.Type == ConstValueType_MAP && result.ValueMap != nil
+//@   ensures wfCVs()
+//@   loop 1 invariant len(vals) == $i && wfCVs() && forall k int :: 0 <= k && k < $i ==> vals[k] != nil
+//@   loop 2 invariant vals != nil && fresh(vals) && wfCVs()
+
+//@ func getFieldDescriptor(ast *parser.Thrift, path string, field *parser.Field) *FieldDescriptor
+//@   requires wfField(field) && wfCVs()
+//@   ensures result != nil && fresh(result) && result.Filepath == path && result.Name == field.Name && result.ID == field.ID && result.Requiredness == field.Requiredness.String() && result.Comments == field.ReservedComments
+//@   ensures (result.Type == nil) == (field.Type == nil) && (field.Type != nil ==> result.Type.Name == field.Type.Name && (result.Type.KeyType == nil) == (field.Type.KeyType == nil) && (result.Type.ValueType == nil) == (field.Type.ValueType == nil))
+//@   ensures (result.DefaultValue == nil) == (field.Default == nil)
+//@   ensures result.Annotations != nil && forall i int :: 0 <= i && i < len(field.Annotations) ==> inDom(result.Annotations, field.Annotations[i].Key)
+//@   ensures wfCVs()
+
+//@ func getStructDescriptor(ast *parser.Thrift, path string, structLike *parser.StructLike) *StructDescriptor
+//@   requires structLike != nil && wfFieldList(structLike.Fields) && wfAnn(structLike.Annotations) && wfCVs()
+//@   ensures result != nil && fresh(result) && result.Filepath == path && result.Name == structLike.Name && result.Comments == structLike.ReservedComments
+//@   ensures len(result.Fields) == len(structLike.Fields)
+//@   ensures forall k int :: 0 <= k && k < len(structLike.Fields) ==> result.Fields[k] != nil && result.Fields[k].Name == structLike.Fields[k].Name && result.Fields[k].ID == structLike.Fields[k].ID && result.Fields[k].Requiredness == structLike.Fields[k].Requiredness.String()
+//@   ensures wfCVs()
+//@   loop 1 invariant len(fields) == $i && wfCVs()
+//@   loop 1 invariant forall k int :: 0 <= k && k < $i ==> fields[k] != nil && fields[k].Name == structLike.Fields[k].Name && fields[k].ID == structLike.Fields[k].ID && fields[k].Requiredness == structLike.Fields[k].Requiredness.String()
+
+//@ func getEnumDescriptor(ast *parser.Thrift, path string, enum *parser.Enum) *EnumDescriptor
+//@   requires enum != nil && wfAnn(enum.Annotations) && forall i int :: 0 <= i && i < len(enum.Values) ==> enum.Values[i] != nil && wfAnn(enum.Values[i].Annotations)
+//@   ensures result != nil && fresh(result) && result.Filepath == path && result.Name == enum.Name && result.Comments == enum.ReservedComments
+//@   ensures len(result.Values) == len(enum.Values)
+//@   ensures forall k int :: 0 <= k && k < len(enum.Values) ==> result.Values[k] != nil && result.Values[k].Name == enum.Values[k].Name && result.Values[k].Value == enum.Values[k].Value && result.Values[k].Comments == enum.Values[k].ReservedComments
+//@   loop 1 invariant len(values) == $i
+//@   loop 1 invariant forall k int :: 0 <= k && k < $i ==> values[k] != nil && values[k].Name == enum.Values[k].Name && values[k].Value == enum.Values[k].Value && values[k].Comments == enum.Values[k].ReservedComments
+
+//@ func getTypedefDescriptor(ast *parser.Thrift, path string, td *parser.Typedef) *TypedefDescriptor
+//@   requires td != nil && wfAnn(td.Annotations)
+//@   ensures result != nil && fresh(result) && result.Filepath == path && result.Alias == td.Alias && result.Comments == td.ReservedComments
+//@   ensures (result.Type == nil) == (td.Type == nil) && (td.Type != nil ==> result.Type.Name == td.Type.Name)
+
+//@ pure func wfFunction(m *parser.Function) bool { return m != nil && wfFieldList(m.Arguments) && wfFieldList(m.Throws) && wfAnn(m.Annotations) }
+
+//@ func getMethodDescriptor(ast *parser.Thrift, path string, method *parser.Function) *MethodDescriptor
+//@   requires wfFunction(method) && wfCVs()
+//@   ensures result != nil && fresh(result) && result.Filepath == path && result.Name == method.Name && result.IsOneway == method.Oneway && result.Comments == method.ReservedComments
+//@   ensures (result.Response == nil) == (method.FunctionType == nil) && (method.FunctionType != nil ==> result.Response.Name == method.FunctionType.Name)
+//@   ensures len(result.Args) == len(method.Arguments) && len(result.ThrowExceptions) == len(method.Throws)
+//@   ensures forall k int :: 0 <= k && k < len(method.Arguments) ==> result.Args[k] != nil && result.Args[k].Name == method.Arguments[k].Name && result.Args[k].ID == method.Arguments[k].ID
+//@   ensures forall k int :: 0 <= k && k < len(method.Throws) ==> result.ThrowExceptions[k] != nil && result.ThrowExceptions[k].Name == method.Throws[k].Name && result.ThrowExceptions[k].ID == method.Throws[k].ID
+//@   ensures wfCVs()
+//@   loop 1 invariant len(args) == $i && wfCVs()
+//@   loop 1 invariant forall k int :: 0 <= k && k < $i ==> args[k] != nil && args[k].Name == method.Arguments[k].Name && args[k].ID == method.Arguments[k].ID
+//@   loop 2 invariant len(throws) == $i && wfCVs() && len(args) == len(method.Arguments)
+//@   loop 2 invariant forall k int :: 0 <= k && k < len(method.Arguments) ==> args[k] != nil && args[k].Name == method.Arguments[k].Name && args[k].ID == method.Arguments[k].ID
+//@   loop 2 invariant forall k int :: 0 <= k && k < $i ==> throws[k] != nil && throws[k].Name == method.Throws[k].Name && throws[k].ID == method.Throws[k].ID
+
+//@ func getServiceDescriptor(ast *parser.Thrift, path string, service *parser.Service) *ServiceDescriptor
+//@   requires service != nil && wfAnn(service.Annotations) && wfCVs() && forall i int :: 0 <= i && i < len(service.Functions) ==> wfFunction(service.Functions[i])
+//@   ensures result != nil && fresh(result) && result.Filepath == path && result.Name == service.Name && result.Base == service.Extends && result.Comments == service.ReservedComments
+//@   ensures len(result.Methods) == len(service.Functions)
+//@   ensures forall k int :: 0 <= k && k < len(service.Functions) ==> result.Methods[k] != nil && result.Methods[k].Name == service.Functions[k].Name && result.Methods[k].IsOneway == service.Functions[k].Oneway
+//@   ensures wfCVs()
+//@   loop 1 invariant len(methods) == $i && wfCVs()
+//@   loop 1 invariant forall k int :: 0 <= k && k < $i ==> methods[k] != nil && methods[k].Name == service.Functions[k].Name && methods[k].IsOneway == service.Functions[k].Oneway
+
+//@ func getConstDescriptor(path string, c *parser.Constant) *ConstDescriptor
+//@   requires c != nil && wfAnn(c.Annotations) && wfCVs()
+//@   ensures result != nil && fresh(result) && result.Filepath == path && result.Name == c.Name && result.Comments == c.ReservedComments
+//@   ensures (result.Type == nil) == (c.Type == nil) && (c.Type != nil ==> result.Type.Name == c.Type.Name)
+//@   ensures (result.Value == nil) == (c.Value == nil)
+//@   ensures wfCVs()
+
+// ---- lookups ----
+
+//@ func (s *StructDescriptor) GetFieldById(id int32) *FieldDescriptor
+//@   requires s != nil ==> forall i int :: 0 <= i && i < len(s.Fields) ==> s.Fields[i] != nil
+//@   ensures s == nil ==> result == nil
+//@   ensures result != nil ==> result.ID == id && exists k int :: 0 <= k && k < len(s.Fields) && s.Fields[k] == result && forall j int :: 0 <= j && j < k ==> s.Fields[j].ID != id
+//@   ensures s != nil && result == nil ==> forall k int :: 0 <= k && k < len(s.Fields) ==> s.Fields[k].ID != id
+//@   loop 1 invariant forall j int :: 0 <= j && j < $i ==> s.Fields[j].ID != id
+
+//@ func (s *StructDescriptor) GetFieldByName(name string) *FieldDescriptor
+//@   requires s != nil ==> forall i int :: 0 <= i && i < len(s.Fields) ==> s.Fields[i] != nil
+//@   ensures s == nil ==> result == nil
+//@   ensures result != nil ==> result.Name == name && exists k int :: 0 <= k && k < len(s.Fields) && s.Fields[k] == result && forall j int :: 0 <= j && j < k ==> s.Fields[j].Name != name
+//@   ensures s != nil && result == nil ==> forall k int :: 0 <= k && k < len(s.Fields) ==> s.Fields[k].Name != name
+//@   loop 1 invariant forall j int :: 0 <= j && j < $i ==> s.Fields[j].Name != name
+
+//@ func (sd *ServiceDescriptor) GetMethodByName(name string) *MethodDescriptor
+//@   requires sd != nil && forall i int :: 0 <= i && i < len(sd.Methods) ==> sd.Methods[i] != nil
+//@   ensures result != nil ==> result.Name == name && exists k int :: 0 <= k && k < len(sd.Methods) && sd.Methods[k] == result && forall j int :: 0 <= j && j < k ==> sd.Methods[j].Name != name
+//@   ensures result == nil ==> forall k int :: 0 <= k && k < len(sd.Methods) ==> sd.Methods[k].Name != name
+//@   loop 1 invariant forall j int :: 0 <= j && j < $i ==> sd.Methods[j].Name != name
+
+// ---- file descriptor ----
+
+//@ pure func includeAlias(path string) string { return trimSuffix(lastSeg(path, "/"), ".thrift") }
+//@ pure func wfSLlist(ss []*parser.StructLike) bool { return forall i int :: 0 <= i && i < len(ss) ==> ss[i] != nil && wfFieldList(ss[i].Fields) && wfAnn(ss[i].Annotations) }
+//@ pure func wfAST(ast *parser.Thrift) bool { return ast != nil && wfSLlist(ast.Structs) && wfSLlist(ast.Unions) && wfSLlist(ast.Exceptions) && (forall i int :: 0 <= i && i < len(ast.Services) ==> ast.Services[i] != nil && wfAnn(ast.Services[i].Annotations) && forall j int :: 0 <= j && j < len(ast.Services[i].Functions) ==> wfFunction(ast.Services[i].Functions[j])) && (forall i int :: 0 <= i && i < len(ast.Enums) ==> ast.Enums[i] != nil && wfAnn(ast.Enums[i].Annotations) && forall j int :: 0 <= j && j < len(ast.Enums[i].Values) ==> ast.Enums[i].Values[j] != nil && wfAnn(ast.Enums[i].Values[j].Annotations)) && (forall i int :: 0 <= i && i < len(ast.Typedefs) ==> ast.Typedefs[i] != nil && wfAnn(ast.Typedefs[i].Annotations)) && (forall i int :: 0 <= i && i < len(ast.Constants) ==> ast.Constants[i] != nil && wfAnn(ast.Constants[i].Annotations)) && (forall i int :: 0 <= i && i < len(ast.Includes) ==> ast.Includes[i] != nil && ast.Includes[i].Reference != nil) && (forall i int :: 0 <= i && i < len(ast.Namespaces) ==> ast.Namespaces[i] != nil) }
+
+//@ func GetFileDescriptor(ast *parser.Thrift) *FileDescriptor
+//@   requires wfAST(ast) && wfCVs()
+//@   ensures result != nil && fresh(result) && result.Filepath == ast.Filename
+//@   ensures len(result.Services) == len(ast.Services) && forall k int :: 0 <= k && k < len(ast.Services) ==> result.Services[k] != nil && result.Services[k].Name == ast.Services[k].Name && result.Services[k].Base == ast.Services[k].Extends && len(result.Services[k].Methods) == len(ast.Services[k].Functions)
+//@   ensures len(result.Structs) == len(ast.Structs) && forall k int :: 0 <= k && k < len(ast.Structs) ==> result.Structs[k] != nil && result.Structs[k].Name == ast.Structs[k].Name && len(result.Structs[k].Fields) == len(ast.Structs[k].Fields)
+//@   ensures len(result.Exceptions) == len(ast.Exceptions) && forall k int :: 0 <= k && k < len(ast.Exceptions) ==> result.Exceptions[k] != nil && result.Exceptions[k].Name == ast.Exceptions[k].Name && len(result.Exceptions[k].Fields) == len(ast.Exceptions[k].Fields)
+//@   ensures len(result.Unions) == len(ast.Unions) && forall k int :: 0 <= k && k < len(ast.Unions) ==> result.Unions[k] != nil && result.Unions[k].Name == ast.Unions[k].Name && len(result.Unions[k].Fields) == len(ast.Unions[k].Fields)
+//@   ensures len(result.Enums) == len(ast.Enums) && forall k int :: 0 <= k && k < len(ast.Enums) ==> result.Enums[k] != nil && result.Enums[k].Name == ast.Enums[k].Name && len(result.Enums[k].Values) == len(ast.Enums[k].Values)
+//@   ensures len(result.Typedefs) == len(ast.Typedefs) && forall k int :: 0 <= k && k < len(ast.Typedefs) ==> result.Typedefs[k] != nil && result.Typedefs[k].Alias == ast.Typedefs[k].Alias
+//@   ensures len(result.Consts) == len(ast.Constants) && forall k int :: 0 <= k && k < len(ast.Constants) ==> result.Consts[k] != nil && result.Consts[k].Name == ast.Constants[k].Name
+//@   ensures result.Includes != nil && forall k int :: 0 <= k && k < len(ast.Includes) ==> inDom(result.Includes, includeAlias(ast.Includes[k].Reference.Filename))
+//@   ensures forall a string :: inDom(result.Includes, a) ==> exists k int :: 0 <= k && k < len(ast.Includes) && includeAlias(ast.Includes[k].Reference.Filename) == a && result.Includes[a] == ast.Includes[k].Reference.Filename
+//@   ensures result.Namespaces != nil && forall k int :: 0 <= k && k < len(ast.Namespaces) ==> inDom(result.Namespaces, ast.Namespaces[k].Language)
+//@   ensures forall l string :: inDom(result.Namespaces, l) ==> exists k int :: 0 <= k && k < len(ast.Namespaces) && ast.Namespaces[k].Language == l && result.Namespaces[l] == ast.Namespaces[k].Name
+//@   loop 1 invariant wfCVs() && len(services) == $i && forall k int :: 0 <= k && k < $i ==> services[k] != nil && services[k].Name == ast.Services[k].Name && services[k].Base == ast.Services[k].Extends && len(services[k].Methods) == len(ast.Services[k].Functions)
+//@   loop 2 invariant wfCVs() && len(structs) == $i && forall k int :: 0 <= k && k < $i ==> structs[k] != nil && structs[k].Name == ast.Structs[k].Name && len(structs[k].Fields) == len(ast.Structs[k].Fields)
+//@   loop 3 invariant wfCVs() && len(exceptions) == $i && forall k int :: 0 <= k && k < $i ==> exceptions[k] != nil && exceptions[k].Name == ast.Exceptions[k].Name && len(exceptions[k].Fields) == len(ast.Exceptions[k].Fields)
+//@   loop 4 invariant wfCVs() && len(unions) == $i && forall k int :: 0 <= k && k < $i ==> unions[k] != nil && unions[k].Name == ast.Unions[k].Name && len(unions[k].Fields) == len(ast.Unions[k].Fields)
+//@   loop 5 invariant wfCVs() && len(enums) == $i && forall k int :: 0 <= k && k < $i ==> enums[k] != nil && enums[k].Name == ast.Enums[k].Name && len(enums[k].Values) == len(ast.Enums[k].Values)
+//@   loop 6 invariant wfCVs() && len(typedefs) == $i && forall k int :: 0 <= k && k < $i ==> typedefs[k] != nil && typedefs[k].Alias == ast.Typedefs[k].Alias
+//@   loop 7 invariant wfCVs() && includesMap != nil && fresh(includesMap) && forall k int :: 0 <= k && k < $i ==> inDom(includesMap, includeAlias(ast.Includes[k].Reference.Filename))
+//@   loop 7 invariant forall a string :: inDom(includesMap, a) ==> exists k int :: 0 <= k && k < $i && includeAlias(ast.Includes[k].Reference.Filename) == a && includesMap[a] == ast.Includes[k].Reference.Filename
+//@   loop 8 invariant wfCVs() && namespaceMap != nil && fresh(namespaceMap) && forall k int :: 0 <= k && k < $i ==> inDom(namespaceMap, ast.Namespaces[k].Language)
+//@   loop 8 invariant forall l string :: inDom(namespaceMap, l) ==> exists k int :: 0 <= k && k < $i && ast.Namespaces[k].Language == l && namespaceMap[l] == ast.Namespaces[k].Name
+//@   loop 9 invariant wfCVs() && len(consts) == $i && forall k int :: 0 <= k && k < $i ==> consts[k] != nil && consts[k].Name == ast.Constants[k].Name
